@@ -1282,6 +1282,65 @@ pub fn generate(rng: &mut Rng, cfg: &GenCfg) -> ProgramAst {
         asts[m].stmts = all;
     }
 
+    // Mirror uses: when two modules import the same module under qualifiers of equal length,
+    // both get, as their very first statement, `let mirr<i> = <q>.<X> ;` for the same
+    // declaration X - in a plain layout the two uses then sit at the same (line, column) in
+    // two different documents.
+    if nmods >= 3 && rng.chance(1, 2) {
+        for tmod in 1..nmods {
+            let Some(x) = mods[tmod].decls.iter().find(|d| d.params.is_empty()).cloned() else { continue };
+            let importers: Vec<(usize, (String, usize))> = (0..tmod)
+                .filter_map(|i| mods[i].imports.iter().find(|im| im.module == tmod).and_then(|im| im.qualifier.clone()).map(|q| (i, q)))
+                .collect();
+            let mut done = false;
+            for a in 0..importers.len() {
+                for b in a + 1..importers.len() {
+                    if done || importers[a].1 .0.len() != importers[b].1 .0.len() {
+                        continue;
+                    }
+                    for (i, (q, qb)) in [importers[a].clone(), importers[b].clone()] {
+                        let nb = binders.len();
+                        let name = format!("mir{i}{tmod}");
+                        binders.push(Binder {
+                            kind: BinderKind::Decl,
+                            module: i,
+                            name: name.clone(),
+                            owner: None,
+                            is_function: false,
+                            is_reference: false,
+                            is_schema: false,
+                        });
+                        let mut toks = vec![t("let")];
+                        toks.push(Tok {
+                            text: name,
+                            tight: false,
+                            eol: false,
+                            occ: Some(Occ { role: Role::DeclName, binder: Some(nb) }),
+                        });
+                        toks.push(t("="));
+                        toks.push(Tok {
+                            text: q,
+                            tight: false,
+                            eol: false,
+                            occ: Some(Occ { role: Role::QualUse, binder: Some(qb) }),
+                        });
+                        toks.push(tt("."));
+                        toks.push(Tok {
+                            text: x.name.clone(),
+                            tight: true,
+                            eol: false,
+                            occ: Some(Occ { role: Role::Use, binder: Some(x.binder) }),
+                        });
+                        toks.push(t(";"));
+                        asts[i].stmts.insert(0, Stmt { kind: StmtKind::Decl, toks });
+                    }
+                    features.insert("mirror_uses");
+                    done = true;
+                }
+            }
+        }
+    }
+
     ProgramAst {
         modules: asts,
         binders,
